@@ -47,6 +47,9 @@ NAMINGS = {
     'tuple': lambda i: (i % 2, i),
     'mixed': lambda i: [0, 'one', (2,), 3.5, frozenset([4]), -5, 'six', (7, 7),
                         8, 'nine', (1, 0), 11.25][i % 12] if i < 12 else ('n', i),
+    # string names whose lexicographic and numeric orders differ, of different lengths
+    'strlen': lambda i: ['s2', 's10', 's1', 's100', 'a', 'b10', 's02', 'S2', 's', 's1_', 'z', 's11'][i % 12]
+    if i < 12 else 's%d' % (i * 7),
     # distinct states whose printed forms collide (0 / '0', (1,) / '(1,)')
     'strcollide': lambda i: [0, '0', (1,), '(1,)', 1, '1', 2, '2', (0,), '(0,)', 3, '3'][i % 12]
     if i < 12 else ('n', i),
